@@ -36,6 +36,11 @@ METH = {'__call__': 'MCall', 'reduce': 'MReduce', 'accumulate': 'MAccumulate', '
         'at': 'MAt', 'reduceat': 'MReduceat'}
 
 
+def translate():
+    from translate import ufunc_dispatch as T
+    return {'Gen/UfuncDispatch.v': T.translate()}
+
+
 class NotImplementedReturn(TypeError):
     """__array_ufunc__ returned NotImplemented (NumPy turns that into a TypeError)"""
 
@@ -217,8 +222,9 @@ class Call(object):
             elif kind == 'arr' or raw:
                 o = bufs[spec[-1]]
             else:
+                # no assertion on sharing here: an element that does not wrap its buffer shows up
+                # as a difference in the observed final contents / memory sharing
                 o = spec[1].element(bufs[spec[2]])
-                assert o.asarray() is bufs[spec[2]]
             cache[id(spec)] = o
             return o
         ins = [mk(s) for s in self.ins]
@@ -258,7 +264,7 @@ class Call(object):
 
     def observe(self, raw):
         """run on fresh copies of the buffers; returns (observation term, python summary)"""
-        bufs = [b.copy() for b in self.bufs]
+        bufs = [relayout(b) for b in self.bufs]
         ins, outs = self._objs(bufs, raw)
         self._raw = raw
         try:
@@ -367,7 +373,7 @@ class Call(object):
 
     def _oracle(self, want_values):
         """NumPy on raw copies WITHOUT out: result dtypes (+ values for the oracle ufuncs)"""
-        bufs = [b.copy() for b in self.bufs]
+        bufs = [relayout(b) for b in self.bufs]
         ins, _ = self._objs(bufs, True)
         self._raw = True
         try:
@@ -388,6 +394,13 @@ class Call(object):
 def ivals(rng, shape, lo=-3, hi=3, dtype=float):
     n = int(np.prod(shape))
     return np.array([rng.randint(lo, hi) for _ in range(n)], dtype=dtype).reshape(shape)
+
+
+def lay_arr(rng, arr):
+    """the same contents in a random memory layout (half of the time plain C order)"""
+    if arr.size == 0 or arr.ndim == 0 or rng.random() < 0.5:
+        return arr
+    return make_layout(arr, rng.choice(['F', 'T', 'S', 'N']))
 
 
 def rand_shape(rng, ndim=None, lo=1, hi=4):
@@ -426,7 +439,7 @@ def discr_space_for(rng, shape, dtype='float64'):
 
 def mk_elem(rng, kind, shape, bufs, dtype='float64', lo=-3, hi=3):
     """new buffer + element spec of the requested kind over it"""
-    arr = ivals(rng, shape, lo, hi, dtype=np.dtype(dtype))
+    arr = lay_arr(rng, ivals(rng, shape, lo, hi, dtype=np.dtype(dtype)))
     bufs.append(arr)
     i = len(bufs) - 1
     if kind == 'arr':
@@ -440,7 +453,7 @@ def respace(rng, spec, bufs, kind, dtype=None, shape=None):
     """an out container of the given kind (fresh buffer) matching the spec's shape"""
     shape = tuple(shape if shape is not None else bufs[spec[-1]].shape)
     dtype = dtype or bufs[spec[-1]].dtype
-    arr = ivals(rng, shape, 7, 9, dtype=np.dtype(dtype))
+    arr = lay_arr(rng, ivals(rng, shape, 7, 9, dtype=np.dtype(dtype)))
     bufs.append(arr)
     i = len(bufs) - 1
     if kind == 'arr':
@@ -457,11 +470,11 @@ def second_operand(rng, x, bufs, allow_elem=True):
     if c == 'self':
         return x, c
     if c == 'elem':
-        arr = ivals(rng, shape, dtype=bufs[x[-1]].dtype)
+        arr = lay_arr(rng, ivals(rng, shape, dtype=bufs[x[-1]].dtype))
         bufs.append(arr)
         return (x[0], x[1], len(bufs) - 1), c
     if c == 'arr':
-        arr = ivals(rng, shape)
+        arr = lay_arr(rng, ivals(rng, shape))
         bufs.append(arr)
         return ('arr', len(bufs) - 1), c
     if c == 'row':
@@ -664,6 +677,15 @@ def _gen_calls(rng, tier):
                             outs = [respace(rng, x, bufs, okind, shape=np.shape(r))]
                         if bname in NONZERO:
                             bufs[x[-1]][bufs[x[-1]] == 0] = 1
+                        if outs is not None and bname in ('maximum', 'minimum', 'fmax', 'fmin') \
+                                and any(st_ < 0 for st_ in bufs[x[-1]].strides):
+                            # NumPy 1.26.4 itself is wrong here (not ODL): maximum/minimum/fmax/fmin.reduce over an
+                            # axis with a NEGATIVE stride combined with out= starts from the wrong entry, e.g.
+                            # a = np.array([[-2., 0.], [2., -1.]])[::-1].copy()[::-1]
+                            # np.maximum.reduce(a, axis=0, out=np.zeros(2)) -> [-2, 0] instead of [2, 0].
+                            # ODL passes the same arrays through, so both sides agree with each other but not
+                            # with exact arithmetic: keep such inputs out of the exact comparison.
+                            bufs[x[-1]] = np.ascontiguousarray(bufs[x[-1]])
                         c = Call(getattr(np, bname), 'reduce', bufs, [x], outs, axis=axis, **kw)
                         yield c, {'kind': kind, 'ufunc': bname, 'method': 'reduce', 'axis': axk, 'out': outk,
                                   'shape': shape, 'dtype': dtype}, (kind, bname, 'reduce', axk, outk, nd, dtype)
@@ -811,8 +833,85 @@ ASSUMPTIONS = [
     'arrays are writeable, buffers are whole arrays (no partial views / strides)',
     'mixing NumpyTensor with DiscretizedSpaceElement operands, the where= keyword and F-order are not modelled',
 ]
-TRUSTED = ['harness/c17.py observation of ODL objects (type, space, np.shares_memory, identity with out)',
-           'C17/Arr.v exact semantics of the modelled ufunc methods (validated against NumPy by the raw half of each case)']
+TRUSTED = ['translate/ufunc_dispatch.py (Python ast -> Gallina decision fragments), fail-closed',
+           'harness/c17.py observation of ODL objects (type, space, np.shares_memory, identity with out)',
+           'C17/Arr.v exact semantics of the modelled ufunc methods (validated against NumPy by the raw half of each '
+           'case); that its Q instance is the restriction of its R instance is PROVED (C17/Transfer.v) for every '
+           'division-free ufunc, assumed only for true_divide / reciprocal']
+
+
+# ---- memory layouts
+LAYOUTS = ['C', 'F', 'T', 'S', 'N']      # C order, Fortran order, transposed view, strided view, negative strides
+
+
+def make_layout(data, lay, dtype=None):
+    """an array with the given logical contents in the requested memory layout"""
+    a = np.array(data, dtype=dtype)
+    if lay == 'F':
+        r = np.asfortranarray(a)
+    elif lay == 'T':
+        r = np.ascontiguousarray(a.T).T
+    elif lay == 'S':
+        base = np.zeros(tuple(2 * n for n in a.shape), dtype=a.dtype)
+        r = base[tuple(slice(None, None, 2) for _ in a.shape)]
+        r[...] = a
+    elif lay == 'N':
+        base = a[::-1].copy()
+        r = base[::-1]
+    else:
+        r = a.copy()
+    assert np.array_equal(r, a)
+    return r
+
+
+def relayout(b):
+    """a fresh array with the same contents AND the same kind of memory layout as b"""
+    if b.ndim == 0 or b.size == 0 or b.flags.c_contiguous:
+        return b.copy()
+    if b.flags.f_contiguous:
+        return np.asfortranarray(b.copy())
+    if any(st_ < 0 for st_ in b.strides):
+        return make_layout(b, 'N')
+    return make_layout(b, 'S')
+
+
+def layout_term(a):
+    c, f = bool(a.flags.c_contiguous), bool(a.flags.f_contiguous)
+    return 'LayCF' if (c and f) else ('LayC' if c else ('LayF' if f else 'LayStrided'))
+
+
+def wrap_cases(rng, tier):
+    """space.element(arr[, order]) for tensor and discretized spaces: shares memory or copies?"""
+    import odl
+    cs = C.CaseSet('wrap', ['C17.Model', 'C17.Corr'], 'check_wrap', 'wcase')
+    reps = 1 if tier == 'quick' else 3
+    for _ in range(reps):
+        for kind in ('tens', 'disc'):
+            for lay in LAYOUTS:
+                for order in (None, 'C', 'F'):
+                    for adt, sdt in (('float64', 'float64'), ('float32', 'float64'), ('int64', 'int64'),
+                                     ('float64', 'float32')):
+                        for writeable in (True, False):
+                            for shape_ok in (True, True, False):
+                                shape = rand_shape(rng, rng.choice([1, 2, 2, 3]), lo=2)
+                                ashape = shape if shape_ok else tuple(n + 1 for n in shape)
+                                arr = make_layout(ivals(rng, ashape), lay, dtype=adt)
+                                arr.setflags(write=writeable)
+                                sp = odl.tensor_space(shape, dtype=sdt) if kind == 'tens' else \
+                                    odl.uniform_discr([0.0] * len(shape), [1.0] * len(shape), shape, dtype=sdt)
+                                try:
+                                    x = sp.element(arr) if order is None else sp.element(arr, order=order)
+                                    err, shares = False, bool(np.shares_memory(arr, x.asarray()))
+                                except ValueError:
+                                    err, shares = True, False
+                                t = '(mkWCase %s %s %s %s %s %s %s %s)' % (
+                                    C.b(shape_ok), dt_term(adt), dt_term(sdt), C.b(writeable), layout_term(arr),
+                                    'None' if order is None else '(Some Ord%s)' % order, C.b(err), C.b(shares))
+                                cs.add(t, {'wrap': kind, 'layout': lay, 'order': order, 'arr_dtype': adt,
+                                           'space_dtype': sdt, 'writeable': writeable, 'shape_ok': shape_ok,
+                                           'shape': list(shape), 'shares': shares, 'err': err},
+                                       (kind, layout_term(arr), order, adt, sdt, writeable, shape_ok))
+    return cs
 
 
 # ---- legacy interface on (nested) power spaces: element trees
@@ -1007,7 +1106,11 @@ def correspondence(rng, tier):
         desc['odl'] = odl_s
         desc['raw'] = raw_s
         cs.add(t, desc, None if 'err' in raw_s else key)
-    return [cs, legacy_cases(rng, tier), pspace_cases(rng, tier)]
+    # the variant measured on the behaviour must be the one read off the source by the translator
+    vs = C.CaseSet('variant', ['C17.Model', 'C17.GenTie'], '(fun b : bool => Bool.eqb b gen_grow)', 'bool')
+    vs.add(C.b(measure_variants()['grow']), {'variant': 'v_grow measured on np.add(rn(3).one(), np.ones((2, 3)))'},
+           'v_grow')
+    return [cs, legacy_cases(rng, tier), pspace_cases(rng, tier), wrap_cases(rng, tier), vs]
 
 
 # ------------------------------------------------------------------ probes
@@ -1524,9 +1627,7 @@ def sharing_eval(spec):
     """space.element(arr) shares memory with arr (matching dtype/shape), asarray round-trips"""
     space = build_space(spec['space'])
     shape = tuple(space_shape(spec['space']))
-    arr = np.array(spec['data'], dtype=spec['adtype']).reshape(shape if not spec.get('transposed') else shape[::-1])
-    if spec.get('transposed'):
-        arr = arr.T
+    arr = make_layout(np.array(spec['data'], dtype=spec['adtype']).reshape(shape), spec.get('layout', 'C'))
     before = arr.copy()
     x = space.element(arr)
     a = x.asarray()
@@ -1552,6 +1653,13 @@ def sharing_eval(spec):
             x2.asarray()[idx] = 5
             if arr[idx] != 5:
                 return False, 'write-back-not-visible', None, None
+        # a ufunc with out= aliased to the element is seen through the wrapped array
+        x3 = space.element(arr)
+        if spec['space']['kind'] != 'pow' and np.dtype(spec['adtype']).kind in 'fi':
+            expect = (arr * 2).copy()
+            r = np.multiply(x3, 2, out=x3)
+            if r is not x3 or not _same(arr, expect):
+                return False, 'out-alias-not-visible', arr.tolist(), expect.tolist()
     return True, '', None, None
 
 
@@ -1566,17 +1674,18 @@ def structural_probes(rng, tier):
                     sd = rand_space_descr(rng, kind, dtype)
                     sd.pop('weighting', None)
                     shape = space_shape(sd)
-                    spec = {'space': sd, 'adtype': adt, 'data': rand_data(rng, [int(np.prod(shape))], 'int32'),
-                            'transposed': bool(rng.random() < 0.3 and len(shape) == 2 and kind != 'pow')}
-                    try:
-                        ok, cat, obs, exp = sharing_eval(spec)
-                    except Exception as e:      # noqa
-                        ok, cat, obs, exp = False, 'crash', repr(e), None
-                    rp = ("import sys\nsys.path.insert(0, %r)\nfrom harness.c17 import sharing_eval\nspec = %r\n"
-                          "ok, category, observed, expected = sharing_eval(spec)\n" % (C.VERIF, spec))
-                    out.append(C.Probe(bool(ok), 'wrap-%s-%s' % (kind, cat), 'space.element(arr) shares memory with arr / '
-                                       'asarray round-trips (%s, %s <- %s)' % (kind, dtype, adt), rp,
-                                       {'category': cat, 'observed': obs, 'expected': exp}))
+                    for lay in LAYOUTS:
+                        spec = {'space': sd, 'adtype': adt, 'data': rand_data(rng, [int(np.prod(shape))], 'int32'),
+                                'layout': lay}
+                        try:
+                            ok, cat, obs, exp = sharing_eval(spec)
+                        except Exception as e:      # noqa
+                            ok, cat, obs, exp = False, 'crash', repr(e), None
+                        rp = ("import sys\nsys.path.insert(0, %r)\nfrom harness.c17 import sharing_eval\nspec = %r\n"
+                              "ok, category, observed, expected = sharing_eval(spec)\n" % (C.VERIF, spec))
+                        out.append(C.Probe(bool(ok), 'wrap-%s-%s' % (kind, cat), 'space.element(arr) [layout %s] shares memory with arr / ' % lay +
+                                           'asarray round-trips (%s, %s <- %s)' % (kind, dtype, adt), rp,
+                                           {'category': cat, 'observed': obs, 'expected': exp}))
     # ---- legacy interface
     from odl.util.ufuncs import RAW_UFUNCS
     for _ in range(1 if tier == 'quick' else 3):
